@@ -261,6 +261,70 @@ func enumerate(c *ev.Ctx, m *model, implemented []uint16) (*gen, []string) {
 			}
 		}
 	}
+	// Part 6: servers holding several chains (Config.Certificates order matters) and the
+	// same chains behind a GetCertificate callback: key sets x versions x suite lists x
+	// preference flag x client curves.
+	keySets := []string{"rsa2048+p256", "p256+rsa2048", "rsa2048+ed-c24", "ed-c24+rsa2048", "p256+ed-c24", "ed-c24+p256",
+		"rsa2048+p256+ed-c24", "ed-c24+p256+rsa2048"}
+	mlists := [][]uint16{nil, {sRSACBC}, {sERSAGCM, sRSACBC}, {sEECGCM, sEECChaCha, sEECCBC}, {sEECCBC, sERSACBC}, {sERSACBC, sEECCBC},
+		{sEECGCM, sERSAGCM, sRSACBC}, {sERSARC4, sDHECBC}}
+	type variant struct {
+		prefer bool
+		curves []uint16
+	}
+	variants := []variant{{false, nil}, {true, nil}, {false, []uint16{curveX25519}}}
+	if !c.Quick() {
+		variants = append(variants, variant{true, []uint16{curveX25519}}, variant{false, []uint16{curveP384, curveP256}}, variant{true, []uint16{curveP384, curveP256}})
+	}
+	for _, ks := range keySets {
+		for _, gc := range []bool{false, true} {
+			for _, v := range allVersions {
+				for ci, cl := range mlists {
+					for si, sl := range mlists {
+						if c.Quick() && ci != si && ci != 0 && si != 0 {
+							continue // quick: equal lists and every list against the default list
+						}
+						for _, va := range variants {
+							g.add("6:several chains x GetCertificate x version x suite lists x prefer x client curves",
+								Cfg{CMin: V10, CMax: v, SMin: V10, SMax: v, Key: ks, GetCert: gc, CS: cl, SS: sl, Prefer: va.prefer, CCurves: va.curves})
+						}
+						if ci == 0 && si == 0 {
+							g.add("6:several chains x GetCertificate x version x suite lists x prefer x client curves",
+								Cfg{CMin: V10, CMax: v, SMin: V10, SMax: v, Key: ks, GetCert: gc, Tickets: 1})
+						}
+					}
+				}
+			}
+		}
+	}
+	// Part 7: CurvePreferences lists x lists (including every HelloRetryRequest constellation:
+	// the client's first group is not one of the server's) x version x key.
+	clists := [][]uint16{nil, {curveP256}, {curveX25519}, {curveP384}, {curveP521}, {curveP256, curveX25519}, {curveX25519, curveP256},
+		{curveP384, curveP256}, {curveP521, curveP384, curveP256, curveX25519}}
+	ckeys := []string{"p256", "rsa2048"}
+	if !c.Quick() {
+		ckeys = keys
+	}
+	for _, cl := range clists {
+		for _, sl := range clists {
+			for _, v := range []uint16{V10, V12, V13} {
+				for _, k := range ckeys {
+					g.add("7:curve lists x curve lists x version x key", Cfg{CMin: V10, CMax: v, SMin: V10, SMax: v, Key: k, CCurves: cl, SCurves: sl})
+				}
+			}
+		}
+	}
+	// Part 8: ALPN lists x ALPN lists x tickets/resumption x version (two connections each).
+	plists := [][]string{nil, {"h2"}, {"h2", "http/1.1"}, {"http/1.1", "h2"}, {"x"}}
+	for _, cp := range plists {
+		for _, sp := range plists {
+			for _, t := range []int{1, 2} {
+				for _, v := range []uint16{V10, V12, V13} {
+					g.add("8:ALPN lists x ALPN lists x tickets x version", Cfg{CMin: V10, CMax: v, SMin: V10, SMax: v, Key: "p256", CProtos: cp, SProtos: sp, Tickets: t})
+				}
+			}
+		}
+	}
 	return g, notes
 }
 
@@ -305,11 +369,14 @@ func main() {
 	ev.Main("C24", "model_checking", func(c *ev.Ctx) {
 		m, implemented, info := learnSuites()
 		c.Set("suites", info)
-		c.Rule("a configuration = (client [min,max], server [min,max], server key type, client/server CipherSuites, ForceSuites, PreferServerCipherSuites, client/server CurvePreferences, client/server NextProtos, tickets mode, ExtendedMasterSecret, MITM downgrade target); distinct = distinct canonical configuration; non-trivial = the server produced a ServerHello")
+		c.Rule("a configuration = (client [min,max], server [min,max], server key type(s): one chain or several chains in Config.Certificates order, served directly or by a GetCertificate callback, client/server CipherSuites, ForceSuites, PreferServerCipherSuites, client/server CurvePreferences, client/server NextProtos, tickets mode, ExtendedMasterSecret, MITM downgrade target); distinct = distinct canonical configuration; non-trivial = the server produced a ServerHello")
 		c.Assume(
 			"reference negotiation written from RFC 8446 §4.1.3/§4.2.1, RFC 5246, RFC 7301 §3.2, RFC 5077, the IANA suite names and the tls.Config doc comments",
 			"default curve set is {X25519,P-256,P-384,P-521}; default pre-1.3 suite set is tls.CipherSuites() minus the TLS 1.3 suites (order undocumented: membership only)",
-			"exact suite prediction only where the documented rule is unambiguous: explicit list of the preferring side, TLS<=1.2, no AES-GCM-vs-ChaCha20 choice under client preference",
+			"exact suite prediction TLS<=1.2 only where the documented rule is unambiguous: explicit list of the preferring side, no AES-GCM-vs-ChaCha20 choice under client preference; with several chains the rule is judged among the suites usable with the chain presented",
+			"TLS 1.3 suite: first suite of the preferring side's list the other side supports - the client's order as read from the ClientHello on the wire, or the server's explicit CipherSuites order - after the documented AES-GCM reordering (server preference: the ClientHello does not start with an AES-GCM suite; client preference: this machine lacks AES+CLMUL instructions, read from golang.org/x/sys/cpu); a nil server list under server preference has no documented order (membership only)",
+			"several chains: completion is demanded when some chain fits a common suite (below TLS 1.3 an ECDSA chain counts strictly only if its curve is in both CurvePreferences, RFC 8422 §5.3); the chain presented must be a configured one, fit the suite and the client's signature_algorithms, and be the first compatible chain (Config.Certificates doc) unless an earlier chain fits loosely only",
+			"the (EC)DHE group is read from the ServerKeyExchange named_curve / the ServerHello and HelloRetryRequest key_share and must lie in both CurvePreferences lists (default list {X25519,P-256,P-384,P-521}); which common group is not demanded",
 			"Ed25519 server keys below TLS 1.2 and disjoint non-empty ALPN lists: both completion and failure accepted",
 			"a client 'supporting the higher version' = client max 1.3, or client max 1.2 against a server max 1.2; other downgrade combinations accepted either way",
 			"each configuration is executed twice from scratch; transcripts (every write of both directions of every connection) must be byte-identical")
@@ -413,7 +480,7 @@ func main() {
 		c.States.Add(ran.Load())
 		c.Set("configurations_total", len(cfgs))
 		if !complete {
-			c.Incomplete(fmt.Sprintf("time budget hit after %d of %d configurations (parts are enumerated in order 1,1b,2,3,4,5)", ran.Load(), len(cfgs)))
+			c.Incomplete(fmt.Sprintf("time budget hit after %d of %d configurations (parts are enumerated in order 1,1b,2,3,4,5,6,7,8)", ran.Load(), len(cfgs)))
 		}
 	})
 }
